@@ -352,7 +352,9 @@ def prove_cases(ctx, name, cases, per_file=60):
 
     def one(item):
         k, fn = item
+        t0 = time.time()
         ok, out = C.coqc(fn, ctx.gen, timeout=900)
+        ftimes.append((round(time.time() - t0, 1), os.path.basename(fn)))
         if ok:
             return k, True, [], ""
         chunk = cases[k:k + per_file]
@@ -370,6 +372,8 @@ def prove_cases(ctx, name, cases, per_file=60):
         return k, False, bad, err
 
     bad, err, nok = [], "", 0
+    ftimes = []
+    t_all = time.time()
     with ThreadPoolExecutor(max_workers=C.NCPU) as ex:
         for k, ok, b, e in ex.map(one, files):
             if ok:
@@ -377,6 +381,8 @@ def prove_cases(ctx, name, cases, per_file=60):
             bad += b
             err += e
     ctx.discharged += nok
+    ctx.notes.append("prove_cases %s: %d cases, %d files, wall %.1fs, slowest files %s" % (
+        name, len(cases), len(files), time.time() - t_all, sorted(ftimes, reverse=True)[:4]))
     return len(cases) - len(bad), sorted(bad), len(files), nok, err
 
 
@@ -1064,7 +1070,9 @@ def run(ctx, cases_override=None):
         tot = gen_totality(rng, ctx.n(3000, 60000))
         prb = probes()
     allc = cases + tot + prb
+    t0 = time.time()
     res = run_ops(ctx, [c["op"] for c in allc])
+    ctx.notes.append("driver round 1: %d ops in %.1fs (after %.1fs setup)" % (len(allc), time.time() - t0, t0 - ctx.t0))
     nC = len(cases)
     viol = []       # (case, result, message)
     known_hits = {}
@@ -1116,7 +1124,7 @@ def run(ctx, cases_override=None):
         c["delta"] = 4.0 * ev["tol"] * (fl(c["op"], "speed") if "speed" in c["op"] else 1.0) + 1e-12
         coq_cases.append(disp_case(c, v, ev))
         idx.append(i)
-    nproved, bad, nfiles, nok, err = prove_cases(ctx, "c02", coq_cases, per_file=ctx.n(20, 60))
+    nproved, bad, nfiles, nok, err = prove_cases(ctx, "c02", coq_cases, per_file=ctx.n(10, 40))
     near_skipped = [idx[j] for j in bad if evs[idx[j]]["near"]]
     mism = [idx[j] for j in bad if not evs[idx[j]]["near"]]
     if err and not bad:
@@ -1172,7 +1180,9 @@ def run(ctx, cases_override=None):
             pts = sorted(set(path_points(c, hi)) | {lo})
         reqs.append((i, c, r, v, pts, len(en_ops)))
         en_ops += energy_ops(c, pts)
-    en_res = run_ops(ctx, en_ops, chunk=20000) if en_ops else []
+    t0 = time.time()
+    en_res = run_ops(ctx, en_ops, chunk=4000) if en_ops else []
+    ctx.notes.append("driver round 2 (energies along the paths): %d ops in %.1fs" % (len(en_ops), time.time() - t0))
     for i, c, r, v, pts, off in reqs:
         vals = []
         bad_e = False
